@@ -173,7 +173,9 @@ def grid_request(rng: random.Random, snapshot: List[Any], modelled_only: bool) -
     bc = rng.choice(BODY_CLASSES)
     sid = id_seg(rng, idc, i)
     praw = path_seg(rng, pc, existing)
-    qt = c10.b64(rng.choice(c10.QTYPES)) if rng.random() < 0.8 else rng.choice(["A", "ä"])
+    qts = [q[0] for q in target["root"].get("q", [])] if target else []
+    qraw = rng.choice(qts) if qts and rng.random() < 0.6 else rng.choice(c10.QTYPES)
+    qt = c10.b64(qraw) if rng.random() < 0.85 else rng.choice(["A", "ä"])
     shapes = [["shells"], ["shells", sid], ["shells", sid, "submodel-refs"], ["shells", sid, "submodel-refs", c10.b64(rng.choice(c10.IDS))],
               ["submodels"], ["submodels", "$metadata"], ["submodels", sid], ["submodels", sid, "$metadata"],
               ["submodels", sid, "submodel-elements"], ["submodels", sid, "submodel-elements", "$metadata"],
@@ -191,6 +193,11 @@ def grid_request(rng: random.Random, snapshot: List[Any], modelled_only: bool) -
                    ["shells", sid, "submodels", c10.b64(rng.choice(c10.IDS))], ["shells", sid, "submodels", c10.b64(rng.choice(c10.IDS)), "x", "y"]]
     segs = rng.choice(shapes)
     method = rng.choice(["GET", "GET", "POST", "PUT", "DELETE", "PATCH", "HEAD", "OPTIONS"])
+    rename_onto = None
+    if qts and len(qts) > 1 and rng.random() < 0.2:
+        # a rename of a qualifier onto a type that exists already: must be rejected without touching the store
+        segs, method, bc = ["submodels", c10.b64(i), "qualifiers", c10.b64(qraw)], "PUT", "ok"
+        rename_onto = rng.choice([t for t in qts if t != qraw] or qts)
     acc = rng.randrange(len(c10.ACCEPTS))
     lim, cur = (rng.choice(c10.QVALS), rng.choice(c10.QVALS)) if rng.random() < 0.4 else (None, None)
     level = rng.choice([None, None, "core", "deep", ""])
@@ -214,7 +221,7 @@ def grid_request(rng: random.Random, snapshot: List[Any], modelled_only: bool) -
         last = praw.split(".")[-1] if praw.split(".")[-1] in c10.IDSHORTS else rng.choice(c10.IDSHORTS)
         payload = c10.gen_elem(rng, 1, rng.choice([last, last, rng.choice(c10.IDSHORTS), None]))
     elif k == "qual":
-        payload = {"k": "qual", "t": rng.choice(c10.QTYPES), "v": rng.randrange(3)}
+        payload = {"k": "qual", "t": rename_onto or (qraw if rng.random() < 0.5 else rng.choice(c10.QTYPES)), "v": rng.randrange(3)}
     else:
         payload = {"k": "ref", "id": rng.choice(c10.IDS)}
     if method in ("POST", "PUT", "PATCH") or rng.random() < 0.05:
